@@ -10,3 +10,4 @@ import L21.Props.C17Sorted
 #print axioms L21.Dep.c17_error_cycle_reachable
 #print axioms L21.Dep.c17_error_iff
 #print axioms L21.Dep.c17_sorted_listing_is_kept
+#print axioms L21.Dep.c17_range_sorted
